@@ -148,6 +148,35 @@ def directed_failed_recalculation(chk):
     chk.add_phase("directed history: a reconfiguration whose calculation raises, then further reads", objects=2)
 
 
+def directed_earlier_result(chk):
+    """an analysis result contains only quantities computed by that call: a result obtained earlier must not change when the same Analyzer
+    (circuit re-parameterised / re-assigned, same table shape) is used again"""
+    import numpy as np
+    import lightworks as lw
+    from lightworks import emulator as emu
+    par = lw.Parameter(0.3)
+    c1 = lw.Circuit(4); c1.bs(0, 1); c1.ps(1, par); c1.bs(0, 1); c1.bs(1, 2, reflectivity=0.4); c1.bs(2, 3); c1.loss(0, 0.1)
+    c2 = lw.Circuit(4); c2.bs(2, 3); c2.bs(1, 2); c2.ps(2, 1.3); c2.bs(0, 1, reflectivity=0.7); c2.loss(3, 0.2)
+    ins = [lw.State([1, 0, 1, 0]), lw.State([2, 0, 0, 0])]
+    an = emu.Analyzer(c1)
+    r1 = an.analyze(ins)
+    keep = np.array(r1.array).copy()
+    pairs = {(i, j): r1[a, o] for i, a in enumerate(r1.inputs) for j, o in enumerate(r1.outputs)}
+    chk.count(key="earlier-result")
+    for step, change in (("a Parameter of the circuit was changed", lambda: par.set(1.9)), ("another circuit of the same size was assigned", lambda: setattr(an, "circuit", c2))):
+        change()
+        an.analyze(ins)
+        now = np.array(r1.array)
+        bad_pairs = [k for k, v in pairs.items() if abs(r1[r1.inputs[k[0]], r1.outputs[k[1]]] - v) > 0 or abs(now[k] - v) > 0]
+        if now.shape != keep.shape or np.abs(now - keep).max() > 0 or bad_pairs:
+            chk.violation("analysis_own", "a result returned by an earlier analyze() call changed after %s and analyze() was called again on the same Analyzer "
+                          "(array deviation %.3g)" % (step, float(np.abs(now - keep).max()) if now.shape == keep.shape else float("nan")),
+                          script={"directed": "earlier result", "history": ["analyze", step, "analyze", "look at the first result again"]},
+                          sig={"call": "Analyzer.analyze", "directed": "earlier_result"})
+            break
+    chk.add_phase("directed history: an earlier analysis result after later analyze() calls on the same Analyzer")
+
+
 def run(tier):
     chk = Check(PID, tier)
     chk.rule = ("cases = behaviours of LwCache (reconfigurations: reassign / edit circuit in place / shared Parameter / input / source / backend / "
@@ -174,6 +203,7 @@ def run(tier):
     replay(chk, "analyzer", "fixed", False, 200 if th else 64, 8, "analyzer")
     directed_truncation(chk)
     directed_failed_recalculation(chk)
+    directed_earlier_result(chk)
     chk.assumptions = ["TLC 1.8", "the world of the replay: two 3-mode lossy circuits that differ only in their herald photon number, one shared Parameter, "
                        "one PostSelection object; 'same distribution' = same keys and values to 1e-12, same seeded samples"]
     return chk.finish()
